@@ -5,6 +5,7 @@
 //! exit 1: `VIOLATION property=C10 replay=<path>` (after minimisation and a fresh-process replay)
 //! exit 2: harness / usage error (never reported as a violation)
 
+#![recursion_limit = "512"]
 mod exec;
 mod gen;
 mod shrink;
@@ -37,6 +38,7 @@ struct Stats {
     mode_hist: [u64; 5],
     short_reads: u64,
     eintrs: u64,
+    rl_err_propagated: u64,
     lay_written: Vec<u64>,
     lay_read: Vec<u64>,
     cell_fswr: Vec<u64>,
@@ -63,6 +65,7 @@ impl Stats {
             mode_hist: [0; 5],
             short_reads: 0,
             eintrs: 0,
+            rl_err_propagated: 0,
             lay_written: vec![0; nlay],
             lay_read: vec![0; nlay],
             cell_fswr: vec![0; (FSWR_CELLS + 63) / 64],
@@ -89,6 +92,7 @@ impl Stats {
         }
         self.short_reads += o.short_reads;
         self.eintrs += o.eintrs;
+        self.rl_err_propagated += o.rl_err_propagated;
         for (a, b) in self.lay_written.iter_mut().zip(o.lay_written) {
             *a += b;
         }
@@ -290,6 +294,7 @@ fn one_run(world: &World, seed: u64, run: u64, tier: Tier, known: &[Known], st: 
         st.records_read += p.stats.records_read as u64;
         st.short_reads += p.stats.short_reads as u64;
         st.eintrs += p.stats.eintrs as u64;
+        st.rl_err_propagated += p.stats.rl_err_propagated as u64;
         st.fault_configured[f.kind()] += 1;
         if p.stats.fired {
             st.fault_fired[f.kind()] += 1;
@@ -335,6 +340,8 @@ struct Batch {
 }
 
 fn run_batch(world: &World, seed: u64, runs: u64, workers: usize, tier: Tier, known: &[Known], keep_digests: bool, cap_s: f64) -> Batch {
+    // digest collection (determinism self-test) runs every index to the end, violation or not
+    let stop_on_violation = !keep_digests;
     let first_bad = AtomicU64::new(u64::MAX);
     let capped = AtomicBool::new(false);
     let t0 = Instant::now();
@@ -364,9 +371,11 @@ fn run_batch(world: &World, seed: u64, runs: u64, workers: usize, tier: Tier, kn
                         digs.push((run, out.digest));
                     }
                     if let Some((t, f, v)) = out.violation {
-                        first_bad.fetch_min(run, Ordering::Relaxed);
-                        bad = Some((run, t, f, v));
-                        break;
+                        if stop_on_violation {
+                            first_bad.fetch_min(run, Ordering::Relaxed);
+                            bad = Some((run, t, f, v));
+                            break;
+                        }
                     }
                     run += workers as u64;
                 }
@@ -796,6 +805,7 @@ fn cmd_run(world: &World, args: &Args) -> i32 {
             "input_mode_perturbations": mode_table,
             "short_reads_delivered": st.short_reads,
             "eintr_delivered": st.eintrs,
+            "decodes_that_only_propagated_a_remaining_len_error_tolerated": st.rl_err_propagated,
             "max_stream_bytes": st.max_stream,
             "max_records_per_history": st.max_records,
             "coverage_cells": {
